@@ -9,7 +9,7 @@ CONSTANTS
   VKMaxDepth = 1
   MaxOuts = 1
   Fmts = {"new", "legacy", "wallet1", "sw2"}
-  PerGroup = 4
+  PerGroup = 2
   CraftDepths = {0, 1, 2, 3, 4}
   KeyNames = {"d1"}
   MaxTerms = 1
